@@ -218,6 +218,8 @@ class Model:
             t.drop_period = a[1] if n == 2 else 1
             return ok()
         if verb == "FAKE_TRXC_DELAY" and ints and n == 1:
+            if a[0] > 3600 * 1000:
+                return (None, [], False)     # absurd delay: refused or not, not fixed by the property; must not crash (C14)
             t.delay_ms = a[0]
             return ok()
         known = {"POWERON", "POWEROFF", "RXTUNE", "TXTUNE", "MEASURE", "SETFH", "SETFORMAT", "SETPOWER", "NOMTXPOWER",
